@@ -198,6 +198,10 @@ def run_use(u):
                         d = same_vector(r1, r2)
                         if d:
                             recs.append(dict(base, kind="keyword-synonym-differs", method=method, value=val, got=d))
+            elif use == "field":
+                r, c = run_field(u, base)
+                recs += r
+                calls += c
             elif use == "twin":
                 vm, vg = build(backend, "momentum", sig), build(backend, "generic", sig)
                 dim = len(sig) + 1
@@ -224,6 +228,123 @@ def run_use(u):
         except Exception as ex:
             recs.append(dict(base, kind="exception", error=f"{type(ex).__name__}: {ex}"[:300]))
     return recs, calls
+
+
+FIELD_POINTS = [(1.5, -2.5, 0.75, 9.5), (-0.5, 1.25, -2.0, 7.0), (2.0, 0.5, 1.5, 6.25)]
+
+
+def field_battery(dim):
+    ops = [("rotateZ", lambda v: v.rotateZ(0.3)), ("scale", lambda v: v.scale(2.0)), ("neg", lambda v: -v), ("mul", lambda v: v * 1.5),
+           ("add-self", lambda v: v + v), ("sub-self", lambda v: v - v), ("dot-self", lambda v: v.dot(v)), ("abs", lambda v: abs(v)),
+           ("rho", lambda v: v.rho), ("phi", lambda v: v.phi), ("x", lambda v: v.x), ("y", lambda v: v.y), ("px", lambda v: v.px),
+           ("pt", lambda v: v.pt), ("to_Vector2D", lambda v: v.to_Vector2D()), ("to_Vector3D", lambda v: v.to_Vector3D()),
+           ("to_Vector4D", lambda v: v.to_Vector4D()), ("to_xy", lambda v: v.to_xy()), ("to_rhophi", lambda v: v.to_rhophi()),
+           ("transform2D", lambda v: v.transform2D({"xx": 1.0, "xy": 2.0, "yx": -1.0, "yy": 0.5})), ("neg2D", lambda v: v.neg2D),
+           ("scale2D", lambda v: v.scale2D(3.0)), ("deltaphi-self", lambda v: v.deltaphi(v)), ("unit", lambda v: v.unit()),
+           ("isclose-self", lambda v: v.isclose(v)), ("equal-self", lambda v: v == v)]
+    if dim >= 3:
+        ops += [("rotateX", lambda v: v.rotateX(0.4)), ("rotateY", lambda v: v.rotateY(-0.2)), ("z", lambda v: v.z), ("pz", lambda v: v.pz),
+                ("eta", lambda v: v.eta), ("theta", lambda v: v.theta), ("mag", lambda v: v.mag), ("p", lambda v: v.p),
+                ("to_xyz", lambda v: v.to_xyz()), ("to_rhophieta", lambda v: v.to_rhophieta()), ("neg3D", lambda v: v.neg3D),
+                ("scale3D", lambda v: v.scale3D(3.0)), ("cross-self", lambda v: v.cross(v)), ("deltaR-self", lambda v: v.deltaR(v)),
+                ("rotate_axis", lambda v: v.rotate_axis(v.to_Vector3D().rotateX(0.5), 0.25)),
+                ("rotate_euler", lambda v: v.rotate_euler(0.1, 0.2, 0.3))]
+    if dim >= 4:
+        ops += [("t", lambda v: v.t), ("tau", lambda v: v.tau), ("E", lambda v: v.E), ("e", lambda v: v.e), ("energy", lambda v: v.energy),
+                ("M", lambda v: v.M), ("m", lambda v: v.m), ("mass", lambda v: v.mass), ("beta", lambda v: v.beta),
+                ("boostZ", lambda v: v.boostZ(beta=0.25)), ("boostX", lambda v: v.boostX(gamma=1.5)), ("to_beta3", lambda v: v.to_beta3()),
+                ("boostCM-self", lambda v: v.boostCM_of(v)), ("to_xyzt", lambda v: v.to_xyzt()), ("to_rhophietatau", lambda v: v.to_rhophietatau()),
+                ("neg4D", lambda v: v.neg4D), ("scale4D", lambda v: v.scale4D(0.5)), ("Et", lambda v: v.Et), ("Mt", lambda v: v.Mt),
+                ("rapidity", lambda v: v.rapidity), ("is_timelike", lambda v: v.is_timelike())]
+    return ops
+
+
+def describe_result(r):
+    """Comparable description of any result: (class name, fields, nested list of values)."""
+    import awkward as ak
+    import vector
+
+    if isinstance(r, (ak.Array, ak.Record)):
+        name = type(r).__name__
+        fields = sorted(ak.fields(r))
+        return [name, fields, json.dumps(ak.to_list(r), sort_keys=True, default=repr)]
+    if isinstance(r, vector.Vector):
+        s, e = coords_of(r)
+        return [type(r).__name__, list(s), repr([numpy.asarray(x).tolist() for x in e])]
+    return [type(r).__name__ if not isinstance(r, (float, numpy.floating)) else "float", [], repr(numpy.asarray(r).tolist())]
+
+
+def run_field(u, base):
+    """Awkward data whose fields carry the synonym name, against the same data under the geometric name."""
+    import awkward as ak
+    import vector
+
+    vector.register_awkward()
+    sig, syn, geo, backend = tuple(u["sys"]), u["syn"], u["geo"], u["backend"]
+    dim = len(sig) + 1
+    names = coords.field_names(sig)
+    cols = {}
+    for k, n in enumerate(names):
+        vals = []
+        for p in FIELD_POINTS:
+            st = coords.store([mpmath_mpf(c) for c in p[:dim]], sig)
+            vals.append(float(st[k]))
+        cols[n] = vals
+    extra = {"charge": [1, -1, 0]}
+    recs, calls = [], 0
+    for layout in ("flat", "ragged"):
+        def make(nm):
+            d = {nm.get(n, n): numpy.array(v) for n, v in cols.items()}
+            d.update({k: numpy.array(v) for k, v in extra.items()})
+            a = ak.zip(d, with_name=f"Momentum{dim}D")
+            if layout == "ragged":
+                a = ak.unflatten(a, [2, 0, 1])
+            a = ak.Array(a, behavior=vector.backends.awkward.behavior)
+            return a[0] if (backend == "akrec" and layout == "flat") else a
+        if backend == "akrec" and layout == "ragged":
+            continue
+        vs, vg = make({geo: syn}), make({})
+        for name, f in field_battery(dim):
+            calls += 2
+            es = eg = None
+            try:
+                rs = f(vs)
+            except Exception as ex:
+                es = f"{type(ex).__name__}: {ex}"[:160]
+            try:
+                rg = f(vg)
+            except Exception as ex:
+                eg = f"{type(ex).__name__}: {ex}"[:160]
+            if es or eg:
+                if (es is None) != (eg is None):
+                    recs.append(dict(base, kind="field-synonym-exception-differs", method=name, layout=layout, got=es, want=eg))
+                continue
+            ds, dg = describe_result(rs), describe_result(rg)
+            # the synonym field may legitimately survive as a pass-through column under its own name
+            ds_fields = [geo if x == syn else x for x in ds[1]]
+            if ds[0] != dg[0] or sorted(ds_fields) != sorted(dg[1]):
+                recs.append(dict(base, kind="field-synonym-changes-type", method=name, layout=layout, got=ds[:2], want=dg[:2]))
+                continue
+            vals_s = json.loads(ds[2]) if isinstance(rs, (ak.Array, ak.Record)) else ds[2]
+            vals_g = json.loads(dg[2]) if isinstance(rg, (ak.Array, ak.Record)) else dg[2]
+
+            def rename(x):
+                if isinstance(x, dict):
+                    return {(geo if k == syn else k): rename(v) for k, v in x.items()}
+                if isinstance(x, list):
+                    return [rename(y) for y in x]
+                return x
+
+            if json.dumps(rename(vals_s), sort_keys=True) != json.dumps(vals_g, sort_keys=True):
+                recs.append(dict(base, kind="field-synonym-changes-values", method=name, layout=layout,
+                                 got=json.dumps(rename(vals_s), sort_keys=True)[:200], want=json.dumps(vals_g, sort_keys=True)[:200]))
+    return recs, calls
+
+
+def mpmath_mpf(x):
+    import mpmath
+
+    return mpmath.mpf(x)
 
 
 def worker(chunk):
